@@ -86,7 +86,7 @@ def run(ctx, replay=None):
 
     PC.probe_known(ctx, KNOWN)
 
-    N = ctx.scale(400, 4000)
+    N = ctx.scale(900, 5000)
     maxdepth = ctx.scale(6, 10)
     corr = []
     for i in range(N):
@@ -134,7 +134,7 @@ def run(ctx, replay=None):
             if f is not None:
                 ctx.fail("scan:" + f["sig"], {"program": prog, **f}, "cumulative scan differs from NumPy")
     # a second stream restricted to the ops of the Lean mini-language (high model coverage)
-    for i in range(ctx.scale(250, 3000)):
+    for i in range(ctx.scale(600, 4000)):
         prog, g = P.gen_program(rng, depth=rng.randint(2, maxdepth), ops=P.MINI_OPS, zero_axes=0.0, basic_only=True, maxrank=3)
         corr.append((prog, g.env[prog[-1]["out"]]))
     lean_correspondence(ctx, corr)
